@@ -275,6 +275,28 @@ def cond_factor(Tf):
     return max(1.0, 1e-3 / max(gap, 1e-12)), gap
 
 
+def stickiness(Tf):
+    """smallest exit probability 1 - T_ii.  binary64 stores T_ii = 1 - e with absolute error 1e-16, i.e. the exit rate e
+    with RELATIVE error 1e-16/e: the float chain differs from the rational one (and from an exactly stochastic one) by that
+    much, so comparisons with exact values and the [0,1] bound get an allowance 1e-14/e (nothing for ordinary chains)"""
+    return max(float(np.min(1.0 - np.diag(Tf))), 1e-16)
+
+
+def pi_min(Tf):
+    """order of magnitude of the smallest stationary probability (float solve of pi (I-T) = 0, sum pi = 1): the library's
+    eq_probs (LAPACK eig) has ABSOLUTE accuracy ~1e-16, i.e. relative accuracy ~1e-16/pi_j on a rarely visited state j"""
+    n = Tf.shape[0]
+    A = (np.eye(n) - Tf).T
+    A[-1, :] = 1.0
+    rhs = np.zeros(n)
+    rhs[-1] = 1.0
+    try:
+        p = np.linalg.solve(A, rhs)
+    except np.linalg.LinAlgError:
+        return 1e-16
+    return max(float(np.min(np.abs(p))), 1e-16)
+
+
 def is_reversible_pi(T, pi):
     n = len(T)
     return all(pi[i] * T[i][j] == pi[j] * T[j][i] for i in range(n) for j in range(n))
@@ -481,8 +503,11 @@ def check_committors(ctx, case, resp):
     inter = [i for i in range(n) if i not in src and i not in snk]
     fac, gap = cond_factor(Tf)
     # committor accuracy of LU on the absorbing chain: |dq| <~ 1.6e-16/gap observed, bound 5e-15/gap
-    TOL, TIGHT = TOL0 * fac, TIGHT0 + 5e-15 / gap
-    QTOL = TOL0 + 5e-15 / gap
+    stick = stickiness(Tf)
+    TOL, TIGHT = TOL0 * fac, TIGHT0 + 5e-15 / gap + 1e-14 / stick
+    QTOL = TOL0 + 5e-15 / gap + 1e-14 / stick
+    if stick < 1e-3:
+        ctx.tag('committors sticky-state exit<1e-%d' % int(np.floor(-np.log10(stick))))
     if fac > 1:
         ctx.tag('committors slow-mixing gap<1e-%d' % int(np.floor(-np.log10(gap))))
     kw = case.get('callstyle') == 'kw'
@@ -608,9 +633,14 @@ def check_mfpts(ctx, case, resp):
     lags = case['lags']
     use_model = case.get('model', True)
     fac, gap = cond_factor(Tf)
-    TOL, TIGHT = TOL0 * fac, TIGHT0
     if fac > 1:
         ctx.tag('mfpts slow-mixing gap<1e-%d' % int(np.floor(-np.log10(gap))))
+    pmin = pi_min(Tf)
+    if 1e-4 / pmin > fac:       # column j of the table is ~ 1/pi_j: computed populations are relative-accurate to 1e-16/pi_j
+        fac = 1e-4 / pmin
+        ctx.tag('mfpts rare-state pi_min<1e-%d' % int(np.floor(-np.log10(pmin))))
+    TOL, TIGHT = TOL0 * fac, TIGHT0
+    MTOL = TOL + 1e-14 / stickiness(Tf)          # comparisons with the exact rational chain
     ctx.case(dict(case_id(case), sink_sets=case['sink_sets'], lags=lags), nontrivial=True,
              tags=['mfpts', 'kind=' + case['kind'], 'n=%d' % n if n <= 10 else 'n>255' if n > 255 else 'n>10',
                    'mode=' + case.get('mode', 'generic')])
@@ -629,8 +659,10 @@ def check_mfpts(ctx, case, resp):
         resp_sinks = [None] * len(case['sink_sets'])
     popform = case.get('popform', 'given')
 
-    def ptol(form):          # float32 populations are stationary only to 6e-8: the equations hold to that accuracy
-        return max(TOL, 1e-5) if form == 'given-f32' else TOL
+    def ptol(form, cont='ndarray'):
+        # float32 populations are stationary only to 6e-8, and a float32 tprob makes the library's own eq_probs
+        # single precision: the all-pairs equations then hold to that accuracy only
+        return max(TOL, 1e-5) if (form == 'given-f32' or cont == 'float32') else TOL
 
     def fail(what, **extra):
         ctx.violation(what, dict(case, **extra))
@@ -665,7 +697,7 @@ def check_mfpts(ctx, case, resp):
                 # first-step: m_ij = lag + sum_k T_ik m_kj for i != j
                 res = m - lagf - Tf @ m
                 np.fill_diagonal(res, 0.0)
-                if np.max(np.abs(res)) > ptol(pops) * sc:
+                if np.max(np.abs(res)) > ptol(pops, cont) * sc:
                     return fail('all-pairs mfpts: first-step residual %.3g (scale %.3g)' % (np.max(np.abs(res)), sc),
                                 **where)
                 tables[(li, cont, pops)] = m
@@ -680,7 +712,7 @@ def check_mfpts(ctx, case, resp):
         dense = tables[(li, 'ndarray', 'none')]
         sc = _scale(dense, lagf)
         for (l2, cont, pops), m in tables.items():
-            if l2 == li and np.max(np.abs(m - dense)) > ptol(pops) * sc:
+            if l2 == li and np.max(np.abs(m - dense)) > ptol(pops, cont) * sc:
                 return fail('all-pairs mfpts differ between ndarray/populations=None and %s/populations=%s' % (cont, pops),
                             failing='all-pairs', container=cont, lag=lag, pops=pops)
         # linear in the lag
@@ -691,7 +723,7 @@ def check_mfpts(ctx, case, resp):
             if 'ok' not in mm:
                 ctx.disagreement('Model mfptsAll returned %s' % mm, dict(case, lag=lag))
                 return
-            if np.max(np.abs(fr_mat(mm['ok']) - dense)) > TOL * sc:
+            if np.max(np.abs(fr_mat(mm['ok']) - dense)) > MTOL * sc:
                 ctx.disagreement('Model Tpt.mfptsAll vs tpt.mfpts differ by %.3g (lag %s)'
                                  % (np.max(np.abs(fr_mat(mm['ok']) - dense)), lag), dict(case, lag=lag))
                 return
@@ -757,7 +789,7 @@ def check_mfpts(ctx, case, resp):
         if 'ok' not in ms:
             ctx.disagreement('Model mfptsSinks returned %s' % ms, dict(case, sinks=snk, lag=lag))
             return
-        if np.max(np.abs(fr_vec(ms['ok']) - dense)) > TOL * sc:
+        if np.max(np.abs(fr_vec(ms['ok']) - dense)) > MTOL * sc:
             ctx.disagreement('Model Tpt.mfptsSinks vs tpt.mfpts differ by %.3g'
                              % np.max(np.abs(fr_vec(ms['ok']) - dense)), dict(case, sinks=snk, lag=lag))
             return
@@ -957,6 +989,13 @@ def make_mfpt_cases(ctx):
 
 
 def run_cases(ctx, cases):
+    # one BLAS/LAPACK thread: the matrices are small and multi-threaded LAPACK only burns CPU (100x slower under load)
+    from threadpoolctl import threadpool_limits
+    with threadpool_limits(limits=1):
+        _run_cases(ctx, cases)
+
+
+def _run_cases(ctx, cases):
     reqs, spans = [], []
     for c in cases:
         rq = committor_requests(c) if c['check'] == 'committors' else mfpt_requests(c)
